@@ -17,6 +17,8 @@ Case files: harness/lifters/robustness/cases/<lifter>.py with a list CASES of di
     /venv/bin/python harness/lifters/robustness/run.py tradeoff oracle # some case files
     /venv/bin/python harness/lifters/robustness/run.py --md            # markdown rows for ROBUSTNESS.md
     /venv/bin/python harness/lifters/robustness/run.py --emit ID DIR   # write the generated files of case ID to DIR
+    /venv/bin/python harness/lifters/robustness/run.py --apply ID,ID,.. DIR   # apply these cases' edits to the tree in DIR
+                                   (then: VERIF_REPO=DIR /venv/bin/python -m harness.vcheck Cxx --tier quick)
 Exit status 1 when a case does not have its expected outcome.
 """
 import ast
@@ -153,6 +155,25 @@ def main(argv):
         i = argv.index("--emit")
         emit = (argv[i + 1], argv[i + 2])
         argv = argv[:i] + argv[i + 3:]
+    if "--apply" in argv:
+        # --apply ID[,ID...] DIR : apply the edits of these cases (cumulatively) to the fairlearn tree in DIR and stop
+        i = argv.index("--apply")
+        ids, target = argv[i + 1].split(","), argv[i + 2]
+        allc = {c["id"]: c for c in load_cases([])}
+        for cid in ids:
+            c = allc[cid]
+            files = dict(c.get("files", {}))
+            if "file" in c:
+                files[c["file"]] = c["edits"]
+            for rel, edits in files.items():
+                path = os.path.join(target, rel)
+                with open(path) as f:
+                    src = f.read()
+                new_src = apply_edits(src, edits, f"{cid} ({rel})")
+                with open(path, "w") as f:
+                    f.write(new_src)
+            print("applied", cid)
+        return 0
     names = [a for a in argv if not a.startswith("-")]
     cases = load_cases(names)
     ensure_wt()
